@@ -49,6 +49,8 @@ def python_line_sites(ctx):
     for fid in LINE_SITES:
         sig = splitter_signature(repo, cg, fid)
         if not sig:
-            raise AnalysisError('%s no longer splits lines (anchor moved)' % fid)
+            # the site still exists but computes its line boundaries some other way (scanning for "\n", indexing ...)
+            res.append((fid, ['custom:<no str.splitlines call: line boundaries are computed by hand>'], repo.func(fid)))
+            continue
         res.append((fid, sorted({s for s, n in sig}), sorted(sig, key=lambda t: t[1].lineno)[0][1]))
     return res
